@@ -138,9 +138,10 @@ class P:
             while self.peek(k0)[1] in ("&", "mut"):
                 k0 += 1
             if self.peek(k0)[1] == "self":
+                ismut = k0 == 2        # `&mut self`
                 for _ in range(k0 + 1):
                     self.next()
-                params.append(("self", "Self"))
+                params.append(("self", ("mutref", "Self") if ismut else "Self"))
             else:
                 self.accept("mut")
                 pn = self.next()[1]
@@ -709,6 +710,22 @@ class Tr:
         if fe[0] == "path" and fe[1][0] in ("u128", "Self") and len(fe[1]) == 2:
             name = "dw_" + fe[1][1]
         name = self.alias.get(name, name)
+        if name in ("algorithms::addmul", "algorithms::addmul_n"):
+            # limb-slice kernels: NOT translated; the hand-written model function of Model/Limbs.v is
+            # called (its own tie to the code is the C15 correspondence run)
+            tgt = args[0]
+            while tgt[0] in ("un", "field"):
+                tgt = tgt[2] if tgt[0] == "un" else tgt[1]
+            if tgt[0] != "var":
+                raise Unsupported("&mut slice argument")
+            b1, a1, _ = self.ex(f, args[1], env)
+            b2, a2, _ = self.ex(f, args[2], env)
+            nm = env[tgt[1]][0]
+            if name.endswith("addmul"):
+                o = f.fresh()
+                return b1 + b2 + ["let '(%s, %s) := Limbs.addmul %s %s %s in" % (nm, o, nm, paren(a1), paren(a2))], o, "bool"
+            f.impure = True
+            return b1 + b2 + ["do %s <- Limbs.addmul_n %s %s %s ;" % (nm, nm, paren(a1), paren(a2))], "tt", ("tuple", [])
         if name not in self.sigs:
             raise Unsupported("call to untranslated function " + name)
         return self.apply(f, name, args, env)
@@ -751,9 +768,13 @@ class Tr:
                         post.append("let %s := %s in" % (env[tgt[1]][0], nv))
                     else:
                         raise Unsupported("&mut argument")
-            r = f.fresh()
-            pat = "(" + ", ".join([r] + outs) + ")"
-            return bs + ["do %s <- %s ; let '%s := %s in" % (v, app, pat, v)] + post, r, rty
+            if rty == ("tuple", []):
+                r, names = "tt", outs
+            else:
+                r = f.fresh()
+                names = [r] + outs
+            pat = names[0] if len(names) == 1 else "(" + ", ".join(names) + ")"
+            return bs + ["do %s <- %s ; let %s%s := %s in" % (v, app, "'" if len(names) > 1 else "", pat, v)] + post, r, rty
         if pure:
             return bs, "(" + app + ")", rty
         f.impure = True
@@ -769,8 +790,14 @@ class Tr:
             return b + ["do %s <- tbl %s %s ;" % (v, env[recv[1]][0], paren(a))], v, env[recv[1]][1][1]
         br, ar, tr_ = self.ex(f, recv, env, want if m.startswith("wrapping_") else None)
         if tr_ == "uint":
+            if m == "as_limbs":
+                return br, ar, ("slice", "u64")
             if "U." + m not in self.sigs:
                 raise Unsupported("Uint method ." + m)
+            if 0 in self.sigs["U." + m][4]:          # `&mut self` method: the receiver must be a variable
+                if recv[0] != "var":
+                    raise Unsupported("&mut self method on a non-variable")
+                return self.apply(f, "U." + m, args, env, recv=recv)
             b2, a2, t2 = self.apply(f, "U." + m, args, env, recv=("__atom", paren(ar)))
             return br + b2, a2, t2
         if m == "len" and isinstance(tr_, tuple) and tr_[0] == "slice":
@@ -832,8 +859,29 @@ class Tr:
                         walk(s[1][3])
                 elif s[0] == "expr" and s[1][0] == "while":
                     walk(s[1][2])
+                elif s[0] == "expr" and s[1][0] == "mcall" and s[1][1][0] == "var" \
+                        and 0 in self.sigs.get("U." + s[1][2], (0, 0, 0, 0, set()))[4]:
+                    lhs(s[1][1])
+                for x in ([s[-1]] if s[0] in ("let", "assign", "expr") else []):
+                    self.kernel_targets(x, lhs)
         walk(blk)
         return out
+
+    def kernel_targets(self, e, lhs):
+        """`algorithms::addmul(&mut x.limbs, ..)` anywhere in e mutates x."""
+        if not isinstance(e, tuple):
+            return
+        if e and e[0] == "call" and e[1][0] == "path" and e[1][1][0] == "algorithms" and e[2]:
+            t = e[2][0]
+            while t[0] in ("un", "field"):
+                t = t[2] if t[0] == "un" else t[1]
+            lhs(t)
+        for x in e:
+            if isinstance(x, tuple):
+                self.kernel_targets(x, lhs)
+            elif isinstance(x, list):
+                for y in x:
+                    self.kernel_targets(y, lhs)
 
     def bind_pat(self, p, ty, env):
         """Gallina pattern for a Rust pattern; extends env."""
@@ -1024,6 +1072,8 @@ class Tr:
             binders += ["(BITS : Z)", "(LIMBS : Z)"]
         for pn, pt in params:
             pt = subst(pt)
+            if pt == ("mutref", "uint") and False:
+                pass
             if isinstance(pt, tuple) and pt[0] == "mutref":
                 env[pn] = (pn, pt[1])
                 mutouts.append(pn)
@@ -1118,6 +1168,11 @@ TARGETS = [
     ("src/algorithms/div/small.rs", None, "div_3x2_mg10", "div_3x2_mg10", "g_div_3x2_mg10", None),
     # inherent methods of Uint<BITS, LIMBS>: generated with leading (BITS LIMBS : Z) parameters
     ("src/lib.rs", UINT_IMPL, "masked", "U.masked", "g_masked", "uint"),
+    ("src/lib.rs", UINT_IMPL, "apply_mask", "U.apply_mask", "g_apply_mask", "uint"),
+    ("src/mul.rs", UINT_IMPL, "overflowing_mul", "U.overflowing_mul", "g_overflowing_mul", "uint"),
+    ("src/mul.rs", UINT_IMPL, "checked_mul", "U.checked_mul", "g_checked_mul", "uint"),
+    ("src/mul.rs", UINT_IMPL, "saturating_mul", "U.saturating_mul", "g_saturating_mul", "uint"),
+    ("src/mul.rs", UINT_IMPL, "wrapping_mul", "U.wrapping_mul", "g_wrapping_mul", "uint"),
     ("src/add.rs", UINT_IMPL, "overflowing_add", "U.overflowing_add", "g_overflowing_add", "uint"),
     ("src/add.rs", UINT_IMPL, "overflowing_sub", "U.overflowing_sub", "g_overflowing_sub", "uint"),
     ("src/add.rs", UINT_IMPL, "overflowing_neg", "U.overflowing_neg", "g_overflowing_neg", "uint"),
@@ -1167,7 +1222,7 @@ def translate(repo):
             status[gname] = "unsupported: %s" % ex
     head = ("(* GENERATED by tools_rs2v.py from the current text of /repo — do not edit.\n"
             "   One definition per translated Rust function; see Gen/Prim.v for the primitives. *)\n"
-            "From RV.Model Require Import Base Word.\nFrom RV.Gen Require Import Prim.\n\n")
+            "From RV.Model Require Import Base Word.\nFrom RV.Model Require Limbs.\nFrom RV.Gen Require Import Prim.\n\n")
     return head + "\n\n".join(tr.out) + "\n", status
 
 
